@@ -17,7 +17,8 @@ def run(c):
     cfg = 'CONSTANT Tier = "%s"\nINIT Init\nNEXT Next\nCONSTRAINT Emit\nCHECK_DEADLOCK FALSE\n' % ("q" if c.quick else "t")
     progs = c.tlc("MC_RoPrograms", "p.cfg", files={"p.cfg": cfg}, name="orders-and-programs").json_lines()
     reps = 40 if c.quick else 1000
-    scen = [dict(p, sc=i, reps=reps) for i, p in enumerate(progs)]
+    # (every operation on the 3 MiB image reads all of it: fewer repetitions)
+    scen = [dict(p, sc=i, reps=(max(4, reps // 10) if p.get("variant") == "large" else reps)) for i, p in enumerate(progs)]
     env = dict(os.environ, VERIF_FIXTURES=os.path.join(vf.VERIF, "fixtures"), GORACE="halt_on_error=1 exitcode=66")
     res, deaths = c.run_worker("ropure", scen, binary=race, env=env, timeout=3000)
     events, owner = [], []
